@@ -243,3 +243,31 @@ package util
 //@ spec func enc(a intarr, W int, ms bytesarr, mo int, n int) bool = forall(j, 0 <= j && j < n ==> be64(a, W + woff(ms, mo, j)) == len(ms[mo+j]))
 //@ lemma rt_offsets_base (C29): forall(intarr(a), W, bytesarr(ms), mo, unfold(roff(a, W, 0)) && unfold(woff(ms, mo, 0)) ==> roff(a, W, 0) == woff(ms, mo, 0))
 //@ lemma rt_offsets_step (C29): forall(intarr(a), W, bytesarr(ms), mo, n, q, enc(a, W, ms, mo, n) && 0 <= q && q < n && unfold(roff(a, W, q+1)) && unfold(woff(ms, mo, q+1)) && roff(a, W, q) == woff(ms, mo, q) ==> roff(a, W, q+1) == woff(ms, mo, q+1))
+
+// ---- ConcatBytesSlice (used by the key builders, C25) ---------------------------------
+//
+// csum(a, o, i): total length of the first i slices of the list a[o..)
+//@ spec func csum(a bytesarr, o int, i int) int = ite(i <= 0, 0, csum(a, o, i-1) + len(a[o+i-1]))
+//@ func ConcatBytesSlice
+//@   prop C25
+//@   requires len(sl) < 1000000 && forall(q, 0 <= q && q < len(sl) ==> len(sl[q]) < 1099511627776)
+// heap typing: the slices of the list refer to allocated memory
+//@   requires forall(q, 0 <= q && q < len(sl) ==> sreg(sl[q]) == 0 || allocated(sreg(sl[q])))
+//@   ensures [len] len(r0) == csum(elems(sl), soff(sl), len(sl))
+//@   ensures [nonempty] sreg(r0) != 0 ==> len(r0) >= 1
+//@   ensures [made] csum(elems(sl), soff(sl), len(sl)) >= 1 ==> sreg(r0) != 0
+//@   ensures [bytes] forall(q, k, 0 <= q && q < len(sl) && 0 <= k && k < len(sl[q]) ==> r0[csum(elems(sl), soff(sl), q) + k] == sl[q][k])
+//@   loop 0 invariant t == csum(elems(sl), soff(sl), rangeindex+1) && t >= 0 && t <= (rangeindex+1) * 1099511627776
+//@   loop 0 invariant forall(q, 0 <= q && q <= rangeindex+1 ==> csum(elems(sl), soff(sl), q) >= 0) && forall(q, 0 <= q && q < rangeindex+1 ==> csum(elems(sl), soff(sl), q+1) == csum(elems(sl), soff(sl), q) + len(sl[q]))
+//@   loop 0 invariant forall(q, 0 <= q && q <= rangeindex+1 ==> csum(elems(sl), soff(sl), q) <= t)
+//@   loop 0 hint unfold(csum(elems(sl), soff(sl), rangeindex+2))
+//@   loop 0 inithint unfold(csum(elems(sl), soff(sl), 0))
+//@   loop 1 invariant j == csum(elems(sl), soff(sl), rangeindex+1) && j >= 0 && j <= len(n) && len(n) == csum(elems(sl), soff(sl), len(sl)) && private(n)
+//@   loop 1 invariant forall(q, 0 <= q && q <= len(sl) ==> csum(elems(sl), soff(sl), q) >= 0) && forall(q, 0 <= q && q < len(sl) ==> csum(elems(sl), soff(sl), q+1) == csum(elems(sl), soff(sl), q) + len(sl[q]))
+//@   loop 1 invariant forall(q, k, 0 <= q && q < rangeindex+1 && 0 <= k && k < len(sl[q]) ==> n[csum(elems(sl), soff(sl), q) + k] == sl[q][k])
+//@   loop 1 invariant forall(q, 0 <= q && q <= len(sl) ==> csum(elems(sl), soff(sl), q) <= len(n))
+//@   loop 1 invariant forall(q, 0 <= q && q <= rangeindex+1 ==> csum(elems(sl), soff(sl), q) <= j)
+//@   loop 1 invariant forall(q, 0 <= q && q < rangeindex+1 ==> csum(elems(sl), soff(sl), q) + len(sl[q]) <= j)
+//@   loop 1 hint unfold(csum(elems(sl), soff(sl), rangeindex+2))
+//@   loop 1 inithint unfold(csum(elems(sl), soff(sl), 0))
+//@   posthint unfold(csum(elems(sl), soff(sl), 0))
